@@ -127,7 +127,11 @@ impl Core {
             .get(target)
             .map(|cached| cached.closest_responding_nodes.clone())
             .filter(|closest_nodes| {
-                !closest_nodes.is_empty() && closest_nodes.iter().any(|n| n.valid_token())
+                // Nodes cached from a find_node lookup carry no token at all.
+                !closest_nodes.is_empty()
+                    && closest_nodes
+                        .iter()
+                        .any(|n| n.token().is_some() && n.valid_token())
             })
     }
 
